@@ -551,6 +551,43 @@ def WFPieces : Option Char → List Piece → Prop
   | prev, .lit _ :: r => prev ≠ some '\'' ∧ WFPieces (some '\'') r
   | prev, .ident q _ :: r => isQuote q = true ∧ prev ≠ some q ∧ WFPieces (some q) r
 
+/-! ## `make_param`: one Param object per paramkey and statement; JSON path (composite) parameters -/
+
+/-- `SQLBuilder.make_param` over the occurrences of one statement: `keys.get(paramkey)`; a new Param object - carrying `content`
+    (converter, or the path items a CompositeParam evaluates) - is created only when the key is new.
+    Result: the content of the object returned at each occurrence. -/
+def makeParams [BEq κ] : List (κ × γ) → List (κ × γ) → List γ
+  | _, [] => []
+  | cache, (k, c) :: r =>
+    match cache.lookup k with
+    | some c' => c' :: makeParams cache r
+    | none => c :: makeParams (cache ++ [(k, c)]) r
+
+/-- an element of a JSON path as `build_json_path` sees it after `builder(element)` -/
+inductive PathItem
+  | param (var : Nat)      -- a Param (paramkey `(var, None, None)`)
+  | skey (s : Nat)         -- a Value holding a string key (strings abstracted to their identity)
+  | ikey (i : Int)         -- a Value holding an array index
+  | ellipsis               -- a Value holding `...`  (wildcard `.*`)
+  | slice                  -- a Value holding `[:]`  (wildcard `[*]`)
+  deriving DecidableEq, Repr, Inhabited
+
+/-- a component of the cache key of a composite parameter -/
+inductive KeyComp
+  | pk (var : Nat) | s (s : Nat) | i (i : Int) | ellipsis | none
+  deriving DecidableEq, Repr, Inhabited
+
+/-- typed mirror of the component expression of `build_json_path` (bridged to the regenerated `Gen.jsonKeyComponent`) -/
+def keyComponent : PathItem → KeyComp
+  | .param v => .pk v
+  | .skey s => .s s
+  | .ikey i => .i i
+  | .ellipsis => .ellipsis
+  | .slice => .none
+
+/-- `tuple(component(item) for item in items)` -/
+def pathKey (items : List PathItem) : List KeyComp := items.map keyComponent
+
 /-! ## Pony: parameters (`SQLBuilder.__init__`, `Param.__str__`) -/
 
 /-- The loop `for i, param in enumerate(params): if param.id is None: param.id = i + 1` over the occurrences of `Param`
